@@ -657,6 +657,10 @@ class Interp:
                     if getattr(base, "__dl_slots__", False):
                         raise Raised("AttributeError", "__dict__", n)     # slotted dataclass instances have no __dict__
                     return {k_: v_ for k_, v_ in vars(base).items() if not k_.startswith("__dl_")}
+                if getattr(base, "__dl_class__", None) and not n.attr.startswith("__dl_"):
+                    pf = self.mod.funcs.get(f"{base.__dl_class__}.{n.attr}")
+                    if pf is not None and any(isinstance(d_, ast.Name) and d_.id in ("property", "cached_property") or isinstance(d_, ast.Attribute) and d_.attr == "cached_property" for d_ in pf.decorator_list):
+                        return self._call(pf, [base], {})      # a property of a host object: its getter is the class's function
                 if hasattr(base, n.attr):
                     return getattr(base, n.attr)
                 raise Raised("AttributeError", n.attr, n)
